@@ -76,6 +76,8 @@ type Case struct {
 	ErrB64 string `json:"err_b64,omitempty"`
 	Size   int    `json:"size,omitempty"`
 	Out0   string `json:"out0_b64,omitempty"` // out: the producer is retried once; its failed first attempt printed this
+	Collide string `json:"collide,omitempty"`   // out: OUT is also a named parameter ("param") or a DAG env: entry ("env") with a stale value
+	ProdFiles int  `json:"prod_files,omitempty"` // out: the producer also has a stdout: file (1), a stderr: file (2), both (3)
 	// observations
 	Err      string            `json:"err,omitempty"`
 	Params   []string          `json:"params"`             // DAG.Params of the (first) load
@@ -224,6 +226,8 @@ type Job struct {
 	Sleep  bool     `json:"sleep,omitempty"` // the DAG ends with a step that sleeps (so that it can be restarted)
 	Fail1  bool     `json:"fail1,omitempty"` // the DAG: s0 reports, s1 fails on its first call and reports afterwards, s2 reports
 	ReqID  string   `json:"req,omitempty"`
+	Collide   string `json:"collide,omitempty"`
+	ProdFiles int    `json:"prod_files,omitempty"`
 }
 
 type JobResult struct {
@@ -308,7 +312,7 @@ func envDag(dir string, names []string, npos int, extra ...string) string {
 	return f
 }
 
-func outDag(dir string, withErr bool, retried bool) string {
+func outDag(dir string, withErr bool, retried bool, collide string, prodFiles int) string {
 	me := self()
 	cat := me + " catfile " + filepath.Join(dir, "out.bin")
 	if withErr {
@@ -318,8 +322,22 @@ func outDag(dir string, withErr bool, retried bool) string {
 		cat = me + " catattempt " + filepath.Join(dir, "prodmark") + " " + filepath.Join(dir, "out0.bin") + " " + filepath.Join(dir, "out.bin") +
 			"\n    retryPolicy:\n      limit: 1\n      intervalSec: 0"
 	}
-	y := "name: c11out\nsteps:\n" +
-		"  - name: prod\n    command: " + cat + "\n    output: OUT\n" +
+	head := "name: c11out\n"
+	switch collide {
+	case "param":
+		head += "params: OUT=stale\n"
+	case "env":
+		head += "env:\n  - OUT: stale\n"
+	}
+	pf := ""
+	if prodFiles&1 != 0 {
+		pf += "    stdout: " + filepath.Join(dir, "prod.out") + "\n"
+	}
+	if prodFiles&2 != 0 {
+		pf += "    stderr: " + filepath.Join(dir, "prod.err") + "\n"
+	}
+	y := head + "steps:\n" +
+		"  - name: prod\n    command: " + cat + "\n    output: OUT\n" + pf +
 		"  - name: c1\n    command: " + me + " envdump " + filepath.Join(dir, "p-d1.json") + " OUT\n    depends:\n      - prod\n" +
 		"  - name: c1a\n    command: " + me + " argdump " + filepath.Join(dir, "p-d1arg.json") + " $OUT\n    depends:\n      - c1\n" +
 		"  - name: c2\n    command: " + me + " envdump " + filepath.Join(dir, "p-d2.json") + " OUT\n    depends:\n      - c1a\n" +
@@ -415,7 +433,7 @@ func workerMain() {
 			res.Probes[n] = readProbe(filepath.Join(j.Dir, "p-"+n+".json"))
 		}
 	case "outA":
-		f := outDag(j.Dir, j.NPos == 1, j.Fail1)
+		f := outDag(j.Dir, j.NPos == 1, j.Fail1, j.Collide, j.ProdFiles)
 		d, err := dag.Load("", f, "")
 		if err != nil {
 			res.Err = err.Error()
@@ -781,7 +799,7 @@ func execCase(c *Case, base string) {
 			o0, _ := base64.StdEncoding.DecodeString(c.Out0)
 			_ = os.WriteFile(filepath.Join(dir, "out0.bin"), o0, 0644)
 		}
-		r, hang := runJob(Job{Mode: "outA", Dir: dir, NPos: withErr, Status: stf, Fail1: c.Out0 != ""}, wd)
+		r, hang := runJob(Job{Mode: "outA", Dir: dir, NPos: withErr, Status: stf, Fail1: c.Out0 != "", Collide: c.Collide, ProdFiles: c.ProdFiles}, wd)
 		c.Hang, c.Err, c.Status = hang, r.Err, r.Status
 		c.Entries = r.Entries
 		c.Probes = map[string]*Probe{}
@@ -1073,6 +1091,9 @@ func main() {
 			} else if i%3 == 0 {
 				c.Out0 = b64([]byte("first attempt " + randString(rng, []string{"a", "=", " ", "Z"}, 6) + "\n"))
 			}
+			// the name of the output is also a parameter / an env: entry; the producer has files of its own
+			c.Collide = []string{"", "", "param", "env"}[rng.Below(4)]
+			c.ProdFiles = []int{0, 0, 1, 2, 3}[rng.Below(5)]
 			add(c)
 		}
 		// 131067 bytes is the longest value execve takes in one NAME=value string (MAX_ARG_STRLEN 131072, "OUT=" and
